@@ -4,6 +4,9 @@ import json, os
 here = os.path.dirname(os.path.dirname(os.path.abspath(__file__)))
 TECH = "deterministic simulation with fault injection"
 claimed = {
+ "C17": ("fault_enumeration", "for each generated blob and worker count the intact file must verify and every enumerated fault on the stored blob (a changed byte at every position of small blobs or at positions biased to first/last/batch-boundary chunks, truncation, extension, equal-size chunk swap) must make the real VerifyIndex fail, each verification run with its n workers under the seeded scheduler",
+         "exhaustive over single-byte positions for blobs <= 1500 bytes, sampled otherwise; one bit flipped per byte",
+         TECH + " (stored-blob fault enumeration under a seeded scheduler)"),
  "C10": ("exploration", "seeded search over concurrent ReadAt / FUSE-node read sequences on the real SparseFile, state saves at arbitrary moments, preload, transient store failures, and restart cycles (clean or by process death at a scheduling step) that reuse cache and state files, incl. removed/resized cache files and missing/foreign state files; per-read oracle: the blob bytes or an error attributable to an injected store failure, never zeros",
          "sampling; process death = freezing all tasks and reopening from the files (equivalent to SIGKILL for file contents); the FUSE kernel bridge is a stub",
          TECH + " (seeded scheduler, fault-injecting store, crash-restart with durable files only, per-read oracle)"),
